@@ -275,6 +275,38 @@ pub fn run(tier: Tier) -> i32 {
             }
             alphas.push(json!({"lang": l.code(), "near_misses_of_linking_words": near.len()}));
         }
+        // threshold sweep: every cardinal 0..=21 and every ordinal 1st..=45th, alone / between ordinary words / before a
+        // comma, at every threshold k/2 for k in 0..=120 (so every value meets the thresholds just below, at and just
+        // above it, and no particular threshold value is special)
+        {
+            let c = vocab::cls(l);
+            let thr: Vec<f64> = (0..=120).map(|k| k as f64 / 2.0).collect();
+            let mut words: Vec<String> = (0..=21u64).map(|n| crate::spell::spell(l, n, crate::spell::Var::default())).collect();
+            for n in 1..=45u64 {
+                if let Some(f) = crate::ordspell::ord_forms(l, n, crate::spell::Var::default()).first() {
+                    words.push(f.text.clone());
+                }
+            }
+            let mut acc_s = Acc::new();
+            for w in &words {
+                let parts: Vec<&str> = w.split(' ').collect();
+                for frame in 0..3 {
+                    let mut syms: Vec<&str> = vec![];
+                    if frame > 0 {
+                        syms.push(c.ordinary.as_str());
+                    }
+                    syms.extend(parts.iter().copied());
+                    if frame == 2 {
+                        syms.push(",");
+                    }
+                    if frame > 0 {
+                        syms.push(c.ordinary.as_str());
+                    }
+                    one_stream_t(&ctx, &mut acc_s, l, &lang, &syms, &thr);
+                }
+            }
+            total.merge(acc_s);
+        }
         // boundary thresholds on short streams of small numbers
         let c = vocab::cls(l);
         let a3: Vec<String> = vec![c.one, c.unit, c.unit2, c.zero, c.small_ord, c.large_ord, c.tens, c.ordinary, ",".to_string()];
@@ -287,6 +319,7 @@ pub fn run(tier: Tier) -> i32 {
         "bounds": {"wide_alphabet": n1, "wide_depth": k1, "deep_alphabet": n2, "deep_depth": k2, "long_streams": {"alphabet": "deep", "pattern_depth": 2, "repetitions_up_to": rmax}},
         "thresholds": T.iter().map(|t| thr_name(*t)).collect::<Vec<_>>(),
         "boundary_stage": {"alphabet": "one, unit, unit2, zero, small ordinal, large ordinal, tens, ordinary word, comma", "depth": 4, "thresholds": bt.iter().map(|t| if t.is_finite() { format!("{t:e}") } else { thr_name(*t) }).collect::<Vec<_>>()},
+        "threshold_sweep": {"numbers": "cardinals 0..=21, ordinals 1st..=45th (standard spelling, first inflection)", "frames": ["alone", "between ordinary words", "before a comma"], "thresholds": "k/2 for k in 0..=120"},
         "alphabets": alphas,
     });
     ctx.finish(total, cov, vec![
